@@ -569,4 +569,14 @@ def unit_mujoco_transition(S):
         S.prove(f"{name}.transition/time-advances-by-dt", ctx, ir.seq(ns.t.scalar(), tc + ir.zreal(ir.const_float(np.float32(lenv.dt)))), function=fn, what="t' = t + dt (dt = frame_skip * timestep)")
 
 
-UNITS = UNITS + [("mujoco-transition", unit_mujoco_transition)]
+def _step_composition(stack):
+    """`step` (AbstractEnvLike.step, inherited by every built-in environment; contract stated in C01): the reward, flags and info step reports are reward / terminal / truncate /
+    transition_info of the transition TAKEN (evaluated at the successor state before any auto-reset).  With the per-environment obligations above (reward, terminal, observation
+    agree with Gymnasium's formulas) this gives Gymnasium's `step` results, also on the step that ends an episode."""
+    def unit(S):
+        from contracts import C01
+        C01.unit_stack(stack)(S)
+    return unit
+
+
+UNITS = UNITS + [("mujoco-transition", unit_mujoco_transition)] + [(f"step:{s}", _step_composition(s)) for s in ("plain-box", "plain-discrete")]
